@@ -11,7 +11,7 @@ RULE = ("every case of each listed space is executed on nearest_neighbor and sym
         "set is non-empty; distinct = distinct case tuples (digest-sharded)")
 ASSUMPTIONS = ["strings longer than the stated bounds / alphabets larger than 4 letters are covered only through the CDR3 one-edit/two-edit ball families",
                "rapidfuzz is exercised, not trusted: every reported d is compared with the reference"]
-REQUIRED_CLASSES = {"all": ["clone-of-more-than-128-copies", "non-amino-acid-symbol-after-long-prefix", "all-sequences-of-one-length", "container-reused-with-new-contents", "size-boundary-family", "non-ascii-alphabet", "needs-indel", "has-empty-string", "duplicate-at-distance-0", "shorter-than-k", "homopolymer"]}
+REQUIRED_CLASSES = {"all": ["clone-of-more-than-128-copies", "non-amino-acid-symbol-after-long-prefix", "all-sequences-of-one-length", "container-reused-with-new-contents", "size-boundary-family", "non-ascii-alphabet", "needs-indel", "has-empty-string", "duplicate-at-distance-0", "shorter-than-k", "homopolymer", "large-radius-on-long-strings"]}
 MIN_OUTCOMES = 10
 
 CDR3_SEEDS = ("CASSLGQAYEQYF", "CAVRDSNYQLIW", "CASSPTGGDTQYF", "CAS")
@@ -84,6 +84,10 @@ def spaces(tier):
             yield ("eqlen", "AC", 6, k)
             yield ("eqlen", "ACD", 4, k)
             yield ("eqlen", "ACDE", 3, k)
+        # large radii on long strings (math.comb(len, k) beyond 1000: k=2 on 46-mers, k=3 on 22-mers, k=4..5 on 14-mers)
+        for si, k in ((0, 4), (1, 4), (2, 4), (4, 4), (0, 5), (3, 3), (3, 4), (0, 3)):
+            yield ("radius", si, k)
+        yield ("radius-46", 2)
         yield ("clone", 150, 1)
         yield ("clone", 257, 2)
         yield ("late-symbol", 130, 1)
@@ -151,6 +155,10 @@ def build(case):
         fill = [E.filler(i) for i in range(n)]
         fill[0], fill[1], fill[n // 2] = base, base[:4] + "T" + base[5:], base[:7] + "K" + base[8:]
         return fill + [base[:4] + "X" + base[5:], base[:4] + "*" + base[5:], base.lower(), base[:7] + "x" + base[8:], base + "X"], k
+    if kind == "radius":
+        return E.radius_family(E.RADIUS_SEEDS[case[1]], case[2]), case[2]
+    if kind == "radius-46":
+        return E.radius_family("CASSLGQGNTEAFFGQGTRLTVVEDLKNVFPPEVAVFEPSEAEISHC", case[1]), case[1]
     if kind == "eqlen":
         _, alpha, L, k = case
         return ["".join(t) for t in itertools.product(alpha, repeat=L)], k
@@ -196,6 +204,8 @@ def check_case(case, acc):
         acc.cls("size-boundary-family")
     if case[0] == "eqlen":
         acc.cls("all-sequences-of-one-length")
+    if case[0] in ("radius", "radius-46"):
+        acc.cls("large-radius-on-long-strings")
     if case[0] == "clone":
         acc.cls("clone-of-more-than-128-copies")
     if case[0] == "late-symbol":
